@@ -27,7 +27,9 @@ RULE = ("formulas with 0..9 (thorough: ..14) variables and 0..12 (thorough: ..40
         "signed permutations, identity, reversal) and invalid (wrong length, 0, +-2, N+1, repeated index, "
         "off-by-one ranges, empty) as list / tuple / range; all eight 'fixed'/'shuffle' combinations and mixes with "
         "explicit arguments under harness-chosen seeds; cnfshuffle and `cnfgen … -T shuffle` in-process with every "
-        "switch combination; distinct = distinct request line (formula + arguments + recorded draws); "
+        "switch combination; reuse: the SAME argument objects (list / array, one object in two roles) handed to 2..5 calls and "
+        "edited in place in between (valid->valid, valid->invalid, invalid->valid), each call judged on the current content; "
+        "distinct = distinct request line (formula + arguments + recorded draws); "
         "non-trivial = at least one variable and one clause")
 ASSUMPTIONS = [
     "input formula is well formed (non-zero literals within 1..N): what add_clause(check=True) and the DIMACS reader guarantee; "
@@ -100,6 +102,9 @@ def realise(spec):
         return range(*spec["r"])
     if spec["kind"] == "tuple":
         return tuple(spec["v"])
+    if spec["kind"] == "array":
+        import array
+        return array.array("q", spec["v"])
     return list(spec["v"])
 
 
@@ -446,6 +451,53 @@ def build(suite, info):
         case_box.append(c)
         return c
 
+    if suite == "reuse":
+        # the SAME argument objects are handed to several calls in a row and edited IN PLACE by the caller in between
+        # (valid -> valid, valid -> invalid, invalid -> valid); every call is judged on what the objects hold at that moment
+        calls, at = info["calls"], info["at"]
+        formulas = [[list(c) for c in f] for f in info["formulas"]]
+        cur = [v if v in (FIXED, SHUFFLE) else list(v) for v in vals]
+        for a, b in info.get("alias", []):
+            cur[b] = cur[a]                      # one object in two roles
+        before = None
+        for i in range(at + 1):
+            if i == at:
+                before = [v if v in (FIXED, SHUFFLE) else list(v) for v in cur]
+            for e in calls[i]["edits"]:
+                apply_edit(cur, e)
+        vals = cur
+        fcl = formulas[calls[at].get("f", 0)]
+        nontrivial = n > 0 and len(fcl) > 0
+
+        def impl():
+            objs = [realise(sp) for sp in specs]
+            for a, b in info.get("alias", []):
+                objs[b] = objs[a]
+            shared = make_formula(n, formulas[0]) if info.get("same_formula") else None
+            for i in range(at + 1):
+                for e in calls[i]["edits"]:
+                    apply_edit(objs, e)
+                F = shared if shared is not None and calls[i].get("f", 0) == 0 else make_formula(n, formulas[calls[i].get("f", 0)])
+                if i < at:
+                    random.seed(seed + i + 1)
+                    try:
+                        Shuffle(F, *objs)
+                    except Exception:
+                        pass
+                else:
+                    G = record(lambda: Shuffle(F, *objs))
+                    return ok(fmt_cnf(G))
+
+        def ok_now(v3, m):
+            return all(v in (FIXED, SHUFFLE) or (is_flips(v, n) if k == 0 else is_perm(v, 1, n) if k == 1 else is_perm(v, 0, m))
+                       for k, v in enumerate(v3))
+        mprev = len(formulas[calls[at - 1].get("f", 0)]) if at > 0 else len(fcl)
+        cls = ("first" if at == 0 else ("valid" if ok_now(before, mprev) else "invalid")) + ">" + ("valid" if ok_now(vals, len(fcl)) else "invalid")
+        c = Case(suite, "shuf ?", impl, property_oracle(n, fcl, vals, state), cls=cls, nontrivial=nontrivial, info=info)
+        case_box.append(c)
+        set_req([])
+        return c
+
     if suite == "header":
         items = [tuple(x) for x in info["header"]]
 
@@ -521,6 +573,108 @@ def build(suite, info):
         case_box.append(c)
         return c
     raise ValueError("unknown suite " + suite)
+
+
+# ------------------------------------------------------------------ in-place edits of caller-owned argument objects
+def apply_edit(objs, e):
+    """e = [which, "set", pos, value] | [which, "assign", values] | [which, "append", value] | [which, "pop"] |
+    [which, "reverse"]: performed IN PLACE on the object of argument `which` (lists and arrays alike)"""
+    o = objs[e[0]]
+    if o in (FIXED, SHUFFLE):
+        return
+    if e[1] == "set":
+        o[e[2]] = e[3]
+    elif e[1] == "assign":
+        o[:] = type(o)(o.typecode, e[2]) if hasattr(o, "typecode") else list(e[2])
+    elif e[1] == "append":
+        o.append(e[2])
+    elif e[1] == "pop":
+        o.pop()
+    elif e[1] == "reverse":
+        o.reverse()
+
+
+def edits_towards(which, old, new, rng):
+    """in-place edits that turn the content `old` into `new`"""
+    if len(old) == len(new):
+        diff = [i for i in range(len(old)) if old[i] != new[i]]
+        if len(diff) <= 3 or rng.random() < .5:
+            return [[which, "set", i, new[i]] for i in diff]
+    if len(new) == len(old) + 1 and new[:-1] == old:
+        return [[which, "append", new[-1]]]
+    if len(new) == len(old) - 1 and old[:-1] == new:
+        return [[which, "pop"]]
+    if new == old[::-1] and rng.random() < .5:
+        return [[which, "reverse"]]
+    return [[which, "assign", list(new)]]
+
+
+def next_content(rng, which, old, n, m, want_valid):
+    """the content the caller edits the argument into: close to the old one when possible"""
+    size, lo = (n, 1) if which < 2 else (m, 0)
+    if want_valid:
+        ok_old = is_flips(old, n) if which == 0 else is_perm(old, lo, size)
+        if ok_old and size >= 1:
+            new = list(old)
+            if which == 0:
+                for i in rng.sample(range(size), rng.randint(1, min(2, size))):
+                    new[i] = -new[i]
+            elif size >= 2:
+                i, j = rng.sample(range(size), 2)
+                new[i], new[j] = new[j], new[i]
+            return new
+        return rand_flips(rng, size) if which == 0 else rand_perm(rng, lo, size)
+    base = list(old) if len(old) == size else (rand_flips(rng, size) if which == 0 else rand_perm(rng, lo, size))
+    r = rng.randrange(6)
+    if r == 0 or size == 0:
+        return base + [1 if which == 0 else lo + size]
+    if r == 1:
+        return base[:-1]
+    i = rng.randrange(size)
+    if r == 2 and which > 0 and size >= 2:
+        base[i] = base[(i + 1) % size]                                   # a repeated index
+    elif r == 3:
+        base[i] = rng.choice([0, 2, -2]) if which == 0 else lo + size      # not a polarity / just above the range
+    elif r == 4:
+        base[i] = rng.choice([3, -3]) if which == 0 else lo - 1           # just below the range
+    else:
+        base[i] = rng.choice([2, 0]) if which == 0 else lo + size + rng.randint(1, 3)
+    return base
+
+
+def gen_reuse(rng, maxn=6, maxm=7):
+    """one batch: formulas with the same number of variables, the same argument objects for 2..5 calls"""
+    n, cl = gen_formula(rng, maxn, maxm)
+    if n < 2:
+        n = rng.randint(2, 4)
+        cl = [[rng.choice([1, -1]) * rng.randint(1, n) for _ in range(rng.randint(0, 3))] for _ in range(rng.randint(1, 4))]
+    formulas = [cl]
+    if rng.random() < .4:           # a second formula over the same variables (same or another number of clauses)
+        m2 = len(cl) if rng.random() < .6 else rng.randint(0, maxm)
+        formulas.append([[rng.choice([1, -1]) * rng.randint(1, n) for _ in range(rng.randint(0, 3))] for _ in range(m2)])
+    specs = []
+    for k in range(3):
+        if rng.random() < (.85 if k < 2 else .5):
+            size, lo = (n, 1) if k < 2 else (len(cl), 0)
+            v = rand_flips(rng, size) if k == 0 else rand_perm(rng, lo, size)
+            if rng.random() < .15:
+                v = next_content(rng, k, v, n, len(cl), False)              # starts invalid
+            specs.append({"kind": "array" if rng.random() < .2 and all(abs(x) < 2 ** 40 for x in v) else "list", "v": v})
+        else:
+            specs.append(rng.choice([FIXED, SHUFFLE]))
+    cur = [values(sp) for sp in specs]
+    calls = [{"edits": [], "f": 0}]
+    for _ in range(rng.randint(1, 4)):
+        f = rng.randrange(len(formulas))
+        edits = []
+        for k in range(3):
+            if cur[k] in (FIXED, SHUFFLE) or rng.random() < .35:
+                continue
+            new = next_content(rng, k, cur[k], n, len(formulas[f]), rng.random() < .5)
+            edits += edits_towards(k, cur[k], new, rng)
+            cur[k] = new
+        calls.append({"edits": edits, "f": f})
+    return dict(n=n, formulas=formulas, args=specs, calls=calls, same_formula=rng.random() < .5, seed=rng.randrange(1 << 30))
 
 
 # ------------------------------------------------------------------ generators
@@ -711,6 +865,25 @@ def cases(ctx):
                 keys.add(k)
                 items.append([k, rng.choice(["", "v", "a b", "Formula (reshuffled)"])])
         infos.append(("header", dict(n=2, clauses=[[1, -2]], header=items, seed=rng.randrange(100))))
+    # the same argument objects passed to several calls, edited in place in between: minimal shapes, then random batches
+    L = lambda v: {"kind": "list", "v": v}
+    f3 = [[1, -2], [2, 3], [-1], []]
+    for which, first, then in ((1, [2, 3, 1], [3, 3, 1]), (1, [2, 3, 1], [2, 4, 1]), (1, [2, 3, 1], [3, 2, 1]), (1, [3, 3, 1], [3, 2, 1]),
+                               (0, [1, -1, 1], [1, 2, 1]), (0, [1, -1, 1], [1, 0, 1]), (0, [1, -1, 1], [-1, -1, 1]), (0, [1, 2, 1], [1, 1, 1]),
+                               (2, [3, 0, 1, 2], [3, 0, 1, 1]), (2, [3, 0, 1, 2], [3, 0, 1, 4]), (2, [3, 0, 1, 2], [2, 0, 1, 3]), (2, [0, 0, 1, 2], [0, 3, 1, 2])):
+        args = [L([1, 1, -1]), L([1, 2, 3]), L([0, 1, 2, 3])]
+        args[which] = L(first)
+        calls = [{"edits": [], "f": 0}, {"edits": edits_towards(which, first, then, rng), "f": 0}]
+        for same in (False, True):
+            infos.append(("reuse", dict(n=3, formulas=[f3], args=args, calls=calls, same_formula=same, at=1, seed=3)))
+    infos.append(("reuse", dict(n=3, formulas=[f3], args=[L([1, -1, 1]), L([2, 3, 1]), FIXED], at=2, seed=4,
+                                calls=[{"edits": []}, {"edits": [[1, "append", 4], [0, "append", 1]]}, {"edits": [[1, "pop"]]}])))
+    infos.append(("reuse", dict(n=1, formulas=[[[1], [-1]]], args=[L([1]), L([1]), FIXED], alias=[[0, 1]], at=1, seed=5,
+                                calls=[{"edits": []}, {"edits": [[0, "set", 0, -1]]}])))
+    for _ in range(reps // 8):
+        b = gen_reuse(rng)
+        for at in range(len(b["calls"])):
+            infos.append(("reuse", dict(b, at=at)))
     fams = [["php", 3, 2], ["php", 4, 3], ["op", 3], ["tseitin", "first", "complete", 4], ["and", 2, 3], ["or", 3, 0], ["parity", 4],
             ["count", 4, 2], ["ram", 3, 3, 5], ["peb", "pyramid", 2]]
     for _ in range(12 if quick else 120):
@@ -737,7 +910,7 @@ def search(ctx, case):
     if r is not None:
         return {"suite": case.suite, "info": case.info, "failure": r}
     info = dict(case.info or {})
-    if case.suite in ("header", "nonint", "tfamily", "nonwf"):
+    if case.suite in ("header", "nonint", "tfamily", "nonwf", "reuse"):
         return None
     if _SEARCH_BUDGET[0] <= 0:          # the neighbourhood is searched for the first few disagreements only
         return None
